@@ -72,7 +72,8 @@ CLAIMED = {
         "every error maps to a documented exception class through the generated error map (C01_error_classes).  Extracted decoders vs the real "
         "ones exhaustively on all inputs of <= 2 octets, on ~25k mutated messages and on privacy-decrypt inputs (debug+release); the real "
         "SnmpSession in 6 security configurations x {get, get_many, getnext, getbulk, refresh} against replies with one defect."
-        "  Python layer: C01_sync_client_exceptions and C01_*_exceptions_closed over Model/PyLayer.v (the layer adds only TimeoutError and the end-of-iteration signals); every API call runs under a watchdog, so a call that never returns is an outcome (HANG) and a violation, as is a worker process that dies.",
+        "  Python layer: C01_sync_client_exceptions and C01_*_exceptions_closed over Model/PyLayer.v (the layer adds only TimeoutError and the end-of-iteration signals); every API call runs under a watchdog, so a call that never returns is an outcome (HANG) and a violation, as is a worker process that dies."
+        "  C01_python_api_exceptions_closed: whatever an API call of either client raises is TimeoutError, an end-of-iteration signal, or an exception a socket method raised during that call.",
    note="Trusted: Coq kernel; hand model tied by differential execution; PyO3 glue and the socket layer are exercised only by the API run. "
         "'touches no memory outside the received bytes' is the absence of out-of-range indexing in safe Rust (modelled as Panic); the unsafe "
         "buffer code is C17. The five crashing inputs of the pinned commit were repaired by fix: commits (known_findings.json). No axioms.",
